@@ -308,6 +308,18 @@ func (d *csDriver) opFunc(c *csClient, pi int, op csOp, rw bool) sched.Op {
 
 func (d *csDriver) Run(x *sched.Exec, raw json.RawMessage) json.RawMessage {
 	d.x = x
+	// CsyncP reads the logged events as bounds on the critical sections (CsyncP.tla, B1-B4) and is told
+	// the granularity of each execution, so the scheduler refinements are sound here: combined
+	// grant+cancel steps (sched.Exec.Double) and park points at the END of critical sections (ParkUnl).
+	x.OptDouble, x.OptParkUnl = true, true
+	// fine: verifhook.Unlocked parks in this execution, i.e. a call's decisive critical section and its
+	// logged return may lie in different controller steps (mirrors sched.Exec.parkUnlActive; erring
+	// towards true only weakens the monitor)
+	fine := x.OptParkUnl && !x.LogSteps && x.ParkUnl
+	if len(x.Sched) > 0 {
+		fine = x.OptParkUnl && !x.LogSteps && x.Sched[0] == "!parkunl"
+	}
+	x.Log(trace.E{"ev": "cfg", "fine": fine})
 	var sc csScenario
 	if raw != nil {
 		if err := json.Unmarshal(raw, &sc); err != nil {
